@@ -57,19 +57,29 @@ def exercise(spec, rng=None, n_steps=0, want_dump=False, fixed_steps=None):
     net = N.Net(spec)
     res = {'sort_cases': [], 'problems': [], 'notes': [], 'dump': None, 'truth': None, 'n': 0}
     order = [tuple(i) for i in spec['order']]
-    cuts = [spec['split'], len(order)] if spec.get('split') else [len(order)]
+    sp = spec.get('split')
+    cuts = sorted(set([c for c in ([sp] if isinstance(sp, int) else list(sp or [])) if 0 < c < len(order)])) + [len(order)]
     start = 0
     for ph, cut in enumerate(cuts):
         net.instantiate(order[start:cut]); start = cut
-        tbl = net.live_graph(); tbl_spec = N.spec_graph(spec, net.done)
+        tbl = net.live_graph()                      # from Wire.source / Wire.sinks, leaves numbered in allLeaves() order
         n = len(tbl); res['n'] = n
         if net.has_struct:
-            tbl_spec = tbl          # structural blocks (Xor2 = 8 leaves): the leaf graph is the live one
+            tbl_spec = tbl          # structural library blocks (Xor2 = 8 leaves): the leaf graph is the live one
         else:
-            if [sorted(x) for x in tbl] != [sorted(x) for x in tbl_spec]:
-                res['problems'].append(('sinks', 'Wire.sinks of the live netlist do not match the netlist that was built', {'live': tbl, 'built': tbl_spec}))
-            if net.all_leaves_order() != list(range(n)):
-                res['problems'].append(('tie', 'HWSystem.allLeaves() is not the instantiation order', {'allLeaves': net.all_leaves_order()}))
+            # the netlist that was described, renumbered to the live leaf order (blocks inside a structural child are
+            # listed at their parent's position by allLeaves())
+            t0 = N.spec_graph(spec, net.done); pos = net.node_leaf_index()
+            tbl_spec = [[] for _ in range(n)]
+            if None in pos or sorted(pos) != list(range(n)):
+                res['problems'].append(('tie', 'HWSystem.allLeaves() does not list exactly the instantiated combinational blocks', {'positions': pos}))
+                tbl_spec = tbl
+            else:
+                for a, row in enumerate(t0): tbl_spec[pos[a]] = [pos[b] for b in row]
+                if [sorted(set(x)) for x in tbl] != [sorted(set(x)) for x in tbl_spec]:
+                    res['problems'].append(('sinks', 'Wire.source / Wire.sinks of the live netlist do not match the netlist that was built', {'live': tbl, 'built': tbl_spec}))
+                if not net.has_box and pos != list(range(n)):
+                    res['problems'].append(('tie', 'HWSystem.allLeaves() is not the instantiation order', {'allLeaves': pos}))
         truth, detail = N.classify(tbl_spec); res['truth'] = truth
         impl = net.get_simulator()
         res['sort_cases'].append((tbl, impl))
@@ -94,6 +104,15 @@ def exercise(spec, rng=None, n_steps=0, want_dump=False, fixed_steps=None):
         if ph == 0:
             bad = compare_values(spec, net, present)
             if bad: res['problems'].append(('value', 'after Simulator construction a wire differs from its block\'s function of the inputs', bad))
+        if cut != cuts[-1] and rng is not None and fixed_steps is None and not res['problems']:
+            # build - SIMULATE - extend: use the simulator before the circuit grows
+            pk = [(k, rng.randrange(1 << w)) for k, w in enumerate(spec['inputs'])]
+            for k, v in pk: net.wire[('i', k)].put(v)
+            with quiet(): net.sim.clk(1)
+            bad = compare_values(spec, net, present)
+            if bad:
+                bad['after'] = {'pokes': pk, 'clk': 1, 'phase': ph}
+                res['problems'].append(('value', 'after clk(1) on the partly built circuit a wire differs from its block\'s function of the current inputs', bad))
     if res['problems']: return res
     dp = None
     if want_dump:
@@ -263,12 +282,17 @@ def random_sweep(ctx, sw, count, tagseed, with_dump=True, steps=4):
         m = i % 10
         flavour = 'dag' if m < 6 else 'cycle' if m < 9 else 'selfloop'
         struct = (i % 4 == 1)
+        itf = (i % 3 == 2)                       # leaves that are sinks / sources of a py4hw.Interface (back-channel wires)
+        boxes = rng.choice([0, 0, 1, 2])         # blocks inside user-defined structural children
         n = rng.randint(2, 6 if struct else 12)
-        spec = N.rand_netlist(rng, n, flavour, n_in=rng.randint(1, 3), n_regs=rng.choice([0, 0, 1, 2]), lib_only=(i % 4 != 3), struct=struct)
+        spec = N.rand_netlist(rng, n, flavour, n_in=rng.randint(1, 3), n_regs=rng.choice([0, 0, 1, 2]), lib_only=(i % 4 != 3), struct=struct,
+                              itf=itf, boxes=boxes)
         if spec is None: continue
-        if flavour == 'dag' and i % 5 == 0 and len(spec['order']) > 2:
-            spec['split'] = rng.randint(1, len(spec['order']) - 1)
+        if flavour == 'dag' and i % 5 in (0, 1) and len(spec['order']) > 2:
+            # build - simulate - extend - simulate histories (one or two extensions, also inside existing structural children)
+            spec['split'] = sorted(set(rng.randint(1, len(spec['order']) - 1) for _ in range(1 + i % 2)))
         r = sw.add('random#%d/%s' % (i, flavour), spec, rng, n_steps=steps, want_dump=with_dump and i % 2 == 0)
+        if r is None: return
         if i < 3: ctx.sample({'netlist': spec, 'leaf_graph': r['sort_cases'][-1][0], 'getSimulator': list(r['sort_cases'][-1][1])})
         if sw.violated: return
 
@@ -279,7 +303,7 @@ def exhaustive_sweep(ctx, sw, quick):
     total = 0
     for n, selfl, dags in plan:
         for e in N.all_digraphs(n, self_loops=selfl, dags_only=dags):
-            spec = N.tiny_graph(n, e)
+            spec = N.tiny_graph(n, e, variant=total % 2)        # every other graph: odd leaves are py4hw.Interface sinks
             rng = random.Random(total)
             sw.add('all-digraphs n=%d %s' % (n, sorted(e)), spec, rng, n_steps=1)
             total += 1
@@ -319,9 +343,10 @@ def search(ctx, n):
     for i in range(n):
         rng = random.Random(ctx.seed * 104729 + i)
         flavour = ('dag', 'dag', 'cycle')[i % 3]
-        spec = N.rand_netlist(rng, rng.randint(2, 16), flavour, n_in=rng.randint(1, 3), n_regs=rng.choice([0, 1, 2]), lib_only=False, struct=(i % 2 == 0))
+        spec = N.rand_netlist(rng, rng.randint(2, 16), flavour, n_in=rng.randint(1, 3), n_regs=rng.choice([0, 1, 2]), lib_only=False, struct=(i % 2 == 0),
+                              itf=(i % 3 != 0), boxes=rng.choice([0, 1, 2]))
         if spec is None: continue
-        if flavour == 'dag' and i % 4 == 0 and len(spec['order']) > 2: spec['split'] = rng.randint(1, len(spec['order']) - 1)
+        if flavour == 'dag' and i % 4 < 2 and len(spec['order']) > 2: spec['split'] = sorted(set(rng.randint(1, len(spec['order']) - 1) for _ in range(1 + i % 2)))
         sw.add('search#%d/%s' % (i, flavour), spec, rng, n_steps=4)
         sw.cases = []
         if sw.violated: return True
